@@ -79,7 +79,7 @@ def _create(ctx, vip, rule, epm):
                    for s in K.walk_no_nested(func.node)):
                 creators.append(func)
     ctx.require(len(creators) >= 3, 'create routines of the three managers '
-                                    '(found %d)' % len(creators), rule=rule)
+                                    '(found %d)' % len(creators), rule='C14.1')
     notes = []
     for func in creators:
         graph = ctx.cfg(func)
@@ -198,7 +198,7 @@ def _release(ctx, vip, rule, epm):
         defs = _local_defs(func)
         unlinks = K.nodes_calling(graph, lambda c: K.callee_text(c) in (
             'os.unlink', 'os.remove'))
-        ctx.require(unlinks, 'os.unlink in %s' % func.qualname, rule=rule)
+        ctx.require(unlinks, 'os.unlink in %s' % func.qualname, rule='C14.2')
         for node, _call in unlinks:
             def ok_edge(edge):
                 for atom in nz.facts_of_edge(edge):
@@ -283,12 +283,12 @@ def _collect(ctx, vip, rule):
     funcs = [vip.methods.get('garbage_collect'),
              rule.methods.get('garbage_collect'),
              index.module(EP).functions.get('garbage_collect')]
-    ctx.require(all(funcs), 'three garbage collectors', rule=rule)
+    ctx.require(all(funcs), 'three garbage collectors', rule='C14.3')
     for func in funcs:
         graph = ctx.cfg(func)
         unlinks = K.nodes_calling(graph, lambda c: K.callee_text(c) in (
             'os.unlink', 'os.remove', 'fs.rm_safe'))
-        ctx.require(unlinks, 'unlink in %s' % func.fq, rule=rule)
+        ctx.require(unlinks, 'unlink in %s' % func.fq, rule='C14.3')
         for node, call in unlinks:
             target = N.txt(call.args[0])
             loop = K.enclosing_for(graph, node)
@@ -451,8 +451,71 @@ def _paths(ctx, vip, rule):
                construct='%s path canonicalisation' % cls.name)
 
 
+def _discipline(ctx, vip, rule, epm):
+    """C14.1 / C14.2 / C14.3: the create, release and collect routines of
+    the three managers (and the module-level collector of the endpoints)
+    tolerate exactly the benign race - the link is already there / already
+    gone - and raise everything else; and VipMgr.alloc hands out an address
+    only when its atomic claim succeeded."""
+    judged = 0
+    for cls in (vip, rule, epm):
+        for func in cls.live_methods():
+            judged += K.tolerance_polarity(ctx, 'C14.3' if 'collect' in
+                                           func.name else 'C14.1', func)
+    for func in epm.module.live_functions():
+        if func.cls is None and 'collect' in func.name:
+            judged += K.tolerance_polarity(ctx, 'C14.3', func)
+    ctx.require(judged >= 6, 'errno tests in the managers (found %d)' %
+                judged, rule='C14.1')
+    alloc = vip.methods.get('alloc')
+    ctx.require(alloc is not None, 'VipMgr.alloc')
+    graph = ctx.cfg(alloc)
+    nz = N.Normaliser()
+    for ret in [n for n in graph.nodes if n.kind == 'return' and
+                n.ast.value is not None]:
+        val = N.txt(ret.ast.value)
+
+        def claimed(edge, val=val):
+            for a in nz.facts_of_edge(edge):
+                if a.key[0] == 'truth' and a.key[2] and \
+                        a.key[1].startswith('self._alloc(') and \
+                        a.key[1].endswith(', %s)' % val):
+                    return True
+            return False
+        ctx.ob('C14.4', alloc, ret, K.guarded_by(graph, ret, claimed),
+               'an address is handed to the caller only after _alloc claimed '
+               'it for that owner (%s)' % val, construct='alloc result')
+
+
+def _service_discipline(ctx):
+    """C14.5 / C14.3: the network service tolerates exactly "already gone"
+    when it tears a request down, and its periodic synchronisation runs the
+    collector of dangling addresses."""
+    svcmod = ctx.index.module('treadmill.services.network_service')
+    svc = svcmod.classes.get('NetworkResourceService')
+    ctx.require(svc is not None, 'NetworkResourceService')
+    judged = 0
+    for func in svc.live_methods():
+        judged += K.tolerance_polarity(ctx, 'C14.5', func)
+    ctx.require(judged >= 1, 'errno tests of the network service',
+                rule='C14.5')
+    sync = svc.methods.get('synchronize')
+    ctx.require(sync is not None, 'NetworkResourceService.synchronize')
+    graph = ctx.cfg(sync)
+    gcs = [n for n, c in K.nodes_calling(
+        graph, lambda c: K.is_meth(c, 'garbage_collect'))]
+    skip = K.find_path(graph.entry, [graph.exit],
+                       cut_node=lambda n: n in gcs, follow_exc=False)
+    ctx.ob('C14.3', sync, gcs[0] if gcs else None,
+           bool(gcs) and skip is None,
+           'every synchronisation of the network service collects the '
+           'addresses whose owner is gone', construct='collector is run')
+
+
 def check(ctx):
     vip, rule, epm = _managers(ctx)
+    _discipline(ctx, vip, rule, epm)
+    _service_discipline(ctx)
     _create(ctx, vip, rule, epm)
     _release(ctx, vip, rule, epm)
     _every_removal(ctx, vip, rule, epm)
